@@ -79,6 +79,8 @@ type c09Case struct {
 	Client []c09Call   `json:"client,omitempty"`
 	Server []c09Call   `json:"server,omitempty"`
 	Raw    *c09RawCase `json:"raw,omitempty"`
+	Alias  []string    `json:"alias,omitempty"`  // server handler ops on re-used caller-owned MD objects (alias_test.go)
+	CAlias []string    `json:"calias,omitempty"` // client ops on a re-used kv slice / MD object
 }
 
 func c09ProgString(p []c09Call) string {
@@ -110,6 +112,12 @@ func (c c09Case) String() string {
 	}
 	if len(c.Server) > 0 {
 		s += " S[" + c09ProgString(c.Server) + "]"
+	}
+	if len(c.Alias) > 0 {
+		s += " A[" + strings.Join(c.Alias, " ") + "]"
+	}
+	if len(c.CAlias) > 0 {
+		s += " CA[" + strings.Join(c.CAlias, " ") + "]"
 	}
 	return s
 }
@@ -295,7 +303,13 @@ type c09Checker struct {
 const c09KeyContentType = "reserved-name-surfaced/content-type/transport-value"
 
 func (k *c09Checker) viol(class, format string, a ...any) {
-	k.viols = append(k.viols, c09Viol{Key: class + " [" + k.c.Leg + "]", Desc: class + ": " + fmt.Sprintf(format, a...) + " | case " + k.c.String()})
+	tag := k.c.Leg
+	if len(k.c.Alias) > 0 {
+		tag = "alias"
+	} else if len(k.c.CAlias) > 0 {
+		tag = "client-alias"
+	}
+	k.viols = append(k.viols, c09Viol{Key: class + " [" + tag + "]", Desc: class + ": " + fmt.Sprintf(format, a...) + " | case " + k.c.String()})
 }
 
 // compareMD compares an observed metadata map with the reference. allowed
@@ -472,6 +486,10 @@ func c09RunRR(t *testing.T, c c09Case) (k *c09Checker, engine string) {
 			return
 		}
 		ctx, cancel := c09ClientCtx(c.Client)
+		if len(c.CAlias) > 0 {
+			cancel()
+			ctx, cancel, _ = c09CAlias(c.CAlias, true)
+		}
 		res := c09DoRPC(w.cc, ctx, c.Shape)
 		hung := !res.Done
 		if hung {
@@ -503,7 +521,15 @@ func c09RunRR(t *testing.T, c c09Case) (k *c09Checker, engine string) {
 func c09CheckRR(k *c09Checker, w *c09World, res *c09Result, c2s, s2c []byte, engine *string) {
 	c := k.c
 	cref := c09RefClient(c.Client)
+	if len(c.CAlias) > 0 {
+		_, cancel, pairs := c09CAlias(c.CAlias, false)
+		cancel()
+		cref = c09Classify(pairs)
+	}
 	href, tref, sendsHeader := c09RefServer(c.Server)
+	if len(c.Alias) > 0 {
+		href, tref, sendsHeader = c09RefAlias(c.Alias)
+	}
 	reqFrames, e1 := c09DecodeStream(c2s, true)
 	respFrames, e2 := c09DecodeStream(s2c, false)
 	if e1 != "" || e2 != "" {
@@ -573,6 +599,9 @@ func c09CheckRR(k *c09Checker, w *c09World, res *c09Result, c2s, s2c []byte, eng
 	}
 	auth, ua := k.checkRequestBlock(reqBlocks[0].Fields, method)
 	k.compareMD("server-incoming", calls[0].MD, cref, map[string][]string{":authority": auth, "user-agent": ua})
+	if !c09SameMD(calls[0].MD, calls[0].MD2) {
+		k.viol("second-read-differs/server-incoming", "FromIncomingContext gave %s, and after the application wrote to that object %s", c09MDString(calls[0].MD), c09MDString(calls[0].MD2))
+	}
 
 	wantStatus, wantMsg := "0", ""
 	if wantErr {
@@ -586,6 +615,17 @@ func c09CheckRR(k *c09Checker, w *c09World, res *c09Result, c2s, s2c []byte, eng
 	}
 	k.compareMD("client-header", res.Header, href, nil)
 	k.compareMD("client-trailer", res.Trailer, tref, nil)
+	if res.Second {
+		if !c09SameMD(res.Header, res.Header2) {
+			k.viol("second-read-differs/client-header", "Header() gave %s, and after the application wrote to the returned objects %s", c09MDString(res.Header), c09MDString(res.Header2))
+		}
+		if !c09SameMD(res.Trailer, res.Trailer2) {
+			k.viol("second-read-differs/client-trailer", "Trailer() gave %s, and after the application wrote to the returned objects %s", c09MDString(res.Trailer), c09MDString(res.Trailer2))
+		}
+	}
+	if res.Alias != "" {
+		k.viol("returned-md-shared/header-trailer", "%s", res.Alias)
+	}
 
 	// outcome class
 	o := fmt.Sprintf("ok:%s user-keys=%d/%d/%d", c.End, len(cref.User), len(href.User), len(tref.User))
@@ -594,6 +634,21 @@ func c09CheckRR(k *c09Checker, w *c09World, res *c09Result, c2s, s2c []byte, eng
 	}
 	if trailersOnly {
 		o += " trailers-only"
+	}
+	if len(c.Alias) > 0 || len(c.CAlias) > 0 {
+		touched := c09AliasMatters(c.Alias)
+		o = "server-alias/end:" + c.End
+		if len(c.CAlias) > 0 {
+			touched = c09CAliasMatters(c.CAlias)
+			o = "client-alias/end:" + c.End
+		}
+		o += fmt.Sprintf(" header-set=%v trailer-set=%v", len(href.User) > 0, len(tref.User) > 0)
+		if trailersOnly {
+			o += " trailers-only"
+		}
+		if touched {
+			o += " object-touched-after-handover"
+		}
 	}
 	k.out = append(k.out, o)
 }
@@ -1030,6 +1085,9 @@ func c09AllCases(thorough bool) []c09Case {
 		}
 	}
 
+	// ---- re-used, mutated caller-owned objects (alias_test.go)
+	out = append(out, c09AliasCases(thorough)...)
+
 	// ---- raw peers
 	out = append(out, c09RawCases(thorough)...)
 	return out
@@ -1128,6 +1186,12 @@ func c09Nontrivial(c c09Case) bool {
 	if c.Raw != nil {
 		return true
 	}
+	if len(c.Alias) > 0 {
+		return c09AliasMatters(c.Alias)
+	}
+	if len(c.CAlias) > 0 {
+		return c09CAliasMatters(c.CAlias)
+	}
 	seen := map[string]int{}
 	for pi, prog := range [][]c09Call{c.Client, c.Server} {
 		for i, call := range prog {
@@ -1170,7 +1234,7 @@ func c09RunCase(t *testing.T, c c09Case) (*c09Checker, string) {
 func TestVerif_C09_Metadata(t *testing.T) {
 	r := vk.Start(t, "c09_metadata", "exploration", c09P)
 	defer r.Finish()
-	r.Rule(c09P, "every program of <=3 metadata API calls (client: NewOutgoingContext via Pairs / raw MD literal, AppendToOutgoingContext; server: SetHeader, SendHeader, SetTrailer) over the stated key x value menu, each as one real unary and one real bidi RPC on a fresh real ClientConn+Server pair, plus every listed base64 spelling / reserved-looking header from a raw HTTP/2 peer in every position; a case is non-trivial when it contains a reserved name, an invalid pair, a non-ASCII binary value, two values of one key, an upper-case key, an overwriting NewOutgoingContext, or a raw peer (distinct by the case text)")
+	r.Rule(c09P, "every program of <=3 metadata API calls (client: NewOutgoingContext via Pairs / raw MD literal, AppendToOutgoingContext; server: SetHeader, SendHeader, SetTrailer) over the stated key x value menu, each as one real unary and one real bidi RPC on a fresh real ClientConn+Server pair, every API-legal handler sequence of <=4 (thorough 5) operations that hand over, re-use and mutate in place two caller-owned MD objects (and the client-side counterpart with a re-used kv slice / MD / FromOutgoingContext result) checked against snapshot-at-call-time semantics, a scribble-then-read-again check of every metadata object returned to the application, plus every listed base64 spelling / reserved-looking header from a raw HTTP/2 peer in every position; a case is non-trivial when it contains a reserved name, an invalid pair, a non-ASCII binary value, two values of one key, an upper-case key, an overwriting NewOutgoingContext, a caller-owned object that is mutated or handed over again after it was handed to the API, or a raw peer (distinct by the case text)")
 	r.Assume(c09P, "reserved names 'and similar' are read as: pseudo-headers, content-type, te, user-agent, grpc-status, grpc-message, grpc-timeout, grpc-encoding, grpc-message-type")
 	r.Assume(c09P, "a reserved name carrying a non-printable value may either be dropped silently or fail the RPC with INTERNAL before anything is sent (the statement does not rank the two rules)")
 	r.Assume(c09P, "'invalid metadata fails the RPC with INTERNAL before anything is sent' is checked for the client's outgoing metadata only; server-side header/trailer menus contain valid and reserved pairs only")
@@ -1209,7 +1273,14 @@ func c09Report(r *vk.Run, t *testing.T, c c09Case) {
 		return
 	}
 	r.Eval(c09P, 1)
-	r.AddInt(c09P, "cases_"+c.Leg, 1)
+	switch {
+	case len(c.Alias) > 0:
+		r.AddInt(c09P, "cases_rr_server_alias", 1)
+	case len(c.CAlias) > 0:
+		r.AddInt(c09P, "cases_rr_client_alias", 1)
+	default:
+		r.AddInt(c09P, "cases_"+c.Leg, 1)
+	}
 	if c09Nontrivial(c) {
 		r.Nontrivial(c09P, c.String())
 	}
